@@ -74,6 +74,11 @@ def variant_pool(rng, n):
     return out
 
 
+def ctl_of(vi):
+    """Variants 6 (same output type, two input types) and every third random variant order consumer 1 before consumer 2."""
+    return vi == 6 or (vi > 6 and vi % 3 == 0)
+
+
 def signature(a, local):
     return ("L", a[0], a[2]) if local else ("R", a[1], a[3])
 
@@ -106,6 +111,9 @@ def build_variant(ctx, vi, ann):
     for j in (1, 2, 3):
         a = ann[j - 1]
         t = t.replace("@OUT%d@" % j, ann_text(a[0], a[1])).replace("@IN%d@" % j, ann_text(a[2], a[3]))
+    # optional control dependency CONS1(k) -> CONS2(k): consumer 2 asks for its copy only once consumer 1 is done
+    ctl = ctl_of(vi)
+    t = t.replace("@CTL1@", "CTL Y -> Y CONS2(k)" if ctl else "").replace("@CTL2@", "CTL Y <- Y CONS1(k)" if ctl else "")
     jdf = os.path.join(d, "reshapefan.jdf")
     open(jdf, "w").write(t)
     c = vbuild.compile_jdf(jdf, d, "reshapefan")
@@ -160,7 +168,7 @@ def run(ctx):
     for vi, ann in enumerate(variants):
         # one process: sequential executions (1 core) under schedulers that order the three consumers differently, so that a
         # consumer overwriting its private copy runs BEFORE a sibling's conversion in some run; then 2-3 processes
-        plan = [(1, 1, "lfq"), (1, 1, "ip"), (1, 1, "ap"), (1, 1, "rnd"), (1, 1, "spq"), (1, 2, "gd"), (1, rng.choice([2, 3]), "ll"),
+        plan = [(1, 1, "lfq"), (1, 1, "ip"), (1, 1, "ap"), (1, rng.choice([2, 3]), "ll"),
                 (2, rng.choice([1, 2, 3]), None),
                 (3, rng.choice([1, 2, 3]), None)] + ([] if ctx.quick else [(3, 2, None), (2, 1, "ip")])
         for nodes, cores, sched in plan:
@@ -175,7 +183,7 @@ def run(ctx):
     with cf.ThreadPoolExecutor(max_workers=4) as ex:
         lines = list(ex.map(lambda j: one_run(ctx, *j), jobs))
     ctx.evaluations = len(lines)
-    ctx.extra["variants"] = [{"ann": v} for v in variants]
+    ctx.extra["variants"] = [{"ann": v, "ctl_1_before_2": ctl_of(i)} for i, v in enumerate(variants)]
     ctx.extra["runs"] = len(lines)
     ctx.sample({"cfg": lines[0]["cfg"], "first_events": lines[0]["events"][:3]})
     ctx.sample({"cfg": lines[-1]["cfg"]})
